@@ -5,11 +5,14 @@ Scenario case: {"default": <XKNX(state_updater=...)>, "rvs": [[sync_state option
             (ValueReader times out after 2 s)
   steps     ["B"] xknx.start()  ["C", c] connection state change  ["G", i] devices.async_add(switch i)
             ["H", i] devices.async_remove(switch i)  ["T", i, "s"|"m"] incoming GroupValueWrite on the state / main address
-            ["A", dt_us] let virtual time pass;   every scenario ends with xknx.stop()
+            ["A", dt_us] let virtual time pass   ["W", n] burst of n outgoing GroupValueWrites on an unrelated address (keeps
+            the outgoing queue busy when "rate" > 0 or "send_delay" > 0);   every scenario ends with xknx.stop()
+  "rate" = XKNX(rate_limit=...), "send_delay" = us the stub interface needs per frame (both default 0)
 Real XKNX.start/stop, StateUpdater, _StateTracker, RemoteValue(Switch), ValueReader, TelegramQueue run on vloop; only
 `xknx.knxip_interface` is a stub (confirms every frame at once).  Observed: GroupValueRead telegrams queued on
 `xknx.telegrams` (R), completion of the shielded read tasks (D, via the loop task factory), processed state telegrams (U),
-delivered connection states (C).
+delivered connection states (C), the outgoing queue becoming busy / drained (QB / QI, recording asyncio.Queue subclass) and
+acquisition / release of a read slot (SA / SR, recording asyncio.Semaphore subclass put in place of the updater's semaphore).
 Parse case: {"op": "c35 parse <default> <option>"} - StateUpdater.parse_tracker_options as a pure function (mode F).
 """
 import asyncio
@@ -30,16 +33,23 @@ PROPERTY = "C35"
 RULE = ("scenarios of <=40 steps (start, connection changes, add/remove of 1-5 switches with tracker options init / expire n / "
         "every n / number / True / False / default from XKNX(state_updater=...), with or without state address, state telegrams on "
         "the state or the main address, time steps with boundary values 2 s, interval-1us, interval, interval+1us) and bus "
-        "answers per read (delay 0..1.999999 s or none -> 2 s timeout); plus StateUpdater.parse_tracker_options on a grid of "
+        "answers per read (delay 0..1.999999 s or none -> 2 s timeout); half of the random scenarios and 32 scripted ones keep the "
+        "OUTGOING queue busy (XKNX(rate_limit) in {2,5,10,20} and/or a slow interface stub 40-700 ms per frame, bursts of 1-12 "
+        "writes placed before connects, disconnects, removals and state telegrams) so that trackers are cancelled while they hold a "
+        "read slot and wait for the queue to drain; plus StateUpdater.parse_tracker_options on a grid of "
         "defaults x options (bool, ints, floats, strings, TrackerOptions, boundary 0/1/1440/1441). non-trivial = scenario with "
         ">=1 read and >=1 connection loss, unregistration or state telegram; every distinct parse line")
 TRUSTED = ["model XknxVerif.Model.StateUpdater is a hand-written monitor; tied to xknx/core/state_updater.py, value_reader.py, "
            "remote_value.py by trace acceptance on every run; constants regenerated (Generated/StateUpdaterConst.lean)",
            "harness/vloop.py virtual-time loop; read completion observed through loop.set_task_factory on the RemoteValue.read_state tasks; "
-           "stub knxip_interface confirming immediately (rate_limit 0), so outgoing_queue.join() returns within the same virtual instant",
+           "stub knxip_interface (confirmation immediately or after a scripted per-frame delay); the outgoing queue becoming busy/idle is "
+           "observed by a recording asyncio.Queue subclass put in place of telegram_queue.outgoing_queue; read-slot acquire/release by a "
+           "recording asyncio.Semaphore subclass put in place of StateUpdater._semaphore (private attribute: the harness fails loudly if it disappears)",
            "option strings are ASCII; NaN/inf intervals and a second registration of an already registered value are not generated"]
 CASE_TIMEOUT = 20.0
 MIN = 60_000_000
+import inspect  # noqa: E402
+PARALLEL_READS = inspect.signature(StateUpdater.__init__).parameters["parallel_reads"].default
 
 STATES = {0: XknxConnectionState.DISCONNECTED, 1: XknxConnectionState.CONNECTING, 2: XknxConnectionState.CONNECTED}
 CODE = {v: k for k, v in STATES.items()}
@@ -49,8 +59,9 @@ DEFAULTS = [False, True, "every 2", "init", 3]
 
 
 class _Stub:
-    def __init__(self, xknx):
+    def __init__(self, xknx, send_delay=0):
         self.xknx = xknx
+        self.send_delay = send_delay
         self.connection_config = ConnectionConfig()
 
     async def start(self):
@@ -60,7 +71,47 @@ class _Stub:
         pass
 
     async def send_cemi(self, cemi):
+        if self.send_delay:
+            await asyncio.sleep(self.send_delay / 1e6)
         self.xknx.cemi_handler.handle_cemi_frame(CEMIFrame(code=CEMIMessageCode.L_DATA_CON, data=cemi.data))
+
+
+class _RecOutQueue(asyncio.Queue):
+    """outgoing_queue: reports when it becomes busy (unfinished 0 -> 1) and when it has drained (-> 0)."""
+
+    def __init__(self, rec):
+        super().__init__()
+        self._rec = rec
+        self._n = 0
+
+    def put_nowait(self, item):
+        if self._n == 0:
+            self._rec("QB")
+        self._n += 1
+        super().put_nowait(item)
+
+    def task_done(self):
+        super().task_done()
+        self._n -= 1
+        if self._n == 0:
+            self._rec("QI")
+
+
+class _RecSem(asyncio.Semaphore):
+    """the updater's read-slot semaphore: reports acquisitions and releases."""
+
+    def __init__(self, value, rec):
+        super().__init__(value)
+        self._rec = rec
+
+    async def acquire(self):
+        r = await super().acquire()
+        self._rec("SA")
+        return r
+
+    def release(self):
+        self._rec("SR")
+        super().release()
 
 
 class _RecQueue(asyncio.Queue):
@@ -94,8 +145,13 @@ async def _scenario(loop, case):
             last_t[0] = t
         trace.append(",".join(str(x) for x in ev))
 
-    xknx = XKNX(state_updater=case["default"], connection_state_changed_cb=lambda st: rec("C", CODE[st]))
-    xknx.knxip_interface = _Stub(xknx)
+    xknx = XKNX(state_updater=case["default"], connection_state_changed_cb=lambda st: rec("C", CODE[st]),
+                rate_limit=case.get("rate", 0))
+    xknx.knxip_interface = _Stub(xknx, case.get("send_delay", 0))
+    if not hasattr(xknx.state_updater, "_semaphore"):
+        raise RuntimeError("StateUpdater has no _semaphore attribute any more: adapt the slot instrumentation")
+    xknx.state_updater._semaphore = _RecSem(PARALLEL_READS, rec)  # noqa: SLF001
+    xknx.telegram_queue.outgoing_queue = _RecOutQueue(rec)
     rvs = case["rvs"]
     sws, cfg, by_state, by_main, by_rv, nreads = [], [], {}, {}, {}, []
     for i, (opt, has_state, _answers) in enumerate(rvs):
@@ -173,6 +229,10 @@ async def _scenario(loop, case):
                     xknx.devices.async_remove(sws[st[1]])
             elif op == "T":
                 inject(st[1], st[2], False)
+            elif op == "W":
+                for _ in range(st[1]):
+                    xknx.telegrams.put_nowait(Telegram(destination_address=GroupAddress("5/0/1"),
+                                                       payload=GroupValueWrite(DPTBinary(1))))
             elif op == "A":
                 await asyncio.sleep(st[1] / 1e6)
             await loop.settle()
@@ -267,6 +327,22 @@ SCRIPTS = [
 ]
 
 
+BUSY_SCRIPTS = [
+    # connection comes up while the queue is busy; it is lost again before the queue has drained; reconnect on an idle bus
+    [["G", 0], ["G", 1], ["G", 2], ["B"], ["W", 6], ["A", 50_000], ["C", 2], ["A", 100_000], ["C", 0], ["A", 3_000_000], ["C", 2],
+     ["A", 5_000_000], ["A", MIN], ["A", MIN]],
+    # devices removed while their trackers hold the slots and wait for the queue
+    [["G", 0], ["G", 1], ["G", 2], ["B"], ["W", 6], ["A", 50_000], ["C", 2], ["A", 100_000], ["H", 0], ["H", 1], ["A", 3_000_000],
+     ["A", 5_000_000], ["G", 0], ["A", 5_000_000], ["A", MIN]],
+    # state telegram for an expire tracker that waits for the queue; then periodic reads must go on
+    [["G", 1], ["G", 3], ["G", 2], ["B"], ["W", 6], ["A", 50_000], ["C", 2], ["A", 100_000], ["T", 1, "s"], ["T", 3, "m"], ["A", 3_000_000],
+     ["A", MIN], ["W", 12], ["A", MIN], ["A", 2 * MIN]],
+    # burst in the middle of periodic operation, flapping connection during it
+    [["G", 0], ["G", 1], ["G", 2], ["G", 3], ["B"], ["C", 2], ["A", 5_000_000], ["A", MIN - 6_000_000], ["W", 12], ["A", 1_100_000], ["C", 1],
+     ["C", 2], ["A", 200_000], ["C", 0], ["A", 100_000], ["C", 2], ["A", 5_000_000], ["A", MIN], ["A", MIN]],
+]
+
+
 def generate(rng, tier):
     yield from parse_cases(rng, tier)
     answer_sets = [[1000], [0], [500_000], [None], [1_999_999], [1000, None], [None, 0], []]
@@ -275,6 +351,12 @@ def generate(rng, tier):
             for ans in ([1000], [None], [0, None]):
                 rvs = [[opt, True, ans], ["expire 1", True, [None]], ["every 1", True, [1000]], ["init", si != 2, ans]]
                 yield {"default": DEFAULTS[si % len(DEFAULTS)], "rvs": rvs, "steps": script}
+    # busy outgoing queue (rate limit / slow interface + bursts of writes) around connects, disconnects, removals, updates
+    for rate, delay in ((10, 0), (5, 0), (0, 150_000), (20, 40_000)):
+        for si, script in enumerate(BUSY_SCRIPTS):
+            for ans in ([1000], [None]):
+                rvs = [["init", True, ans], ["expire 1", True, ans], ["every 1", True, [1000]], ["expire 2", True, [None]]]
+                yield {"default": False, "rvs": rvs, "steps": script, "rate": rate, "send_delay": delay}
     n = 250 if tier == "quick" else 4000
     for _ in range(n):
         nr = rng.randint(1, 5)
@@ -300,7 +382,21 @@ def generate(rng, tier):
             else:
                 steps.append(["A", rng.choice([1, 1000, 500_000, 1_999_999, 2_000_000, 2_000_001, 30_000_000, MIN - 1, MIN, MIN + 1,
                                                MIN - 2_000_000, 2 * MIN, 3 * MIN, 90_000_000, 10 * MIN])])
-        yield {"default": rng.choice(DEFAULTS), "rvs": rvs, "steps": steps}
+        case = {"default": rng.choice(DEFAULTS), "rvs": rvs, "steps": steps}
+        if rng.random() < 0.5:
+            # keep the outgoing queue busy: rate limit and/or slow interface, bursts of writes sprinkled over the steps
+            case["rate"] = rng.choice([0, 2, 5, 10, 20])
+            case["send_delay"] = rng.choice([0, 0, 40_000, 150_000, 700_000]) if case["rate"] else rng.choice([40_000, 150_000, 700_000])
+            k = 0
+            while k < len(steps):
+                if steps[k][0] in "CGHT" and rng.random() < 0.5:
+                    steps.insert(k, ["W", rng.choice([1, 2, 3, 6, 12])])
+                    k += 1
+                    if rng.random() < 0.5:
+                        steps.insert(k, ["A", rng.choice([1, 50_000, 100_000, 150_000, 300_000])])
+                        k += 1
+                k += 1
+        yield case
 
 
 def run_impl(case):
@@ -351,6 +447,12 @@ def oracle(case, out):
     init_done = [False] * n
     reads_since_start = [0] * n
     stopped_at = None
+    qbusy = False                 # outgoing queue has unfinished telegrams (trackers holding a slot wait for it to drain)
+    held = 0                      # read slots currently acquired
+
+    def due_now():
+        return sum(1 for i in range(n) if started and reg[i] and cfg[i][0] != "n"
+                   and (need_init[i] or (next_due[i] is not None and next_due[i] <= now)))
 
     def start_all():
         for i in range(n):
@@ -362,8 +464,14 @@ def oracle(case, out):
         k = e[0]
         if k == "A":
             t = int(e[1])
-            # reads owed before the clock moves on
-            if started and len(inflight) < 2:
+            # every acquired slot belongs to a read in progress or to a tracker that still wants to read
+            if held - len(inflight) > due_now():
+                return (f"{held} read slot(s) are taken but only {len(inflight)} read(s) are in progress and {due_now()} tracker(s) "
+                        f"wait to read: a slot was lost (event #{idx})")
+            if not qbusy and held != len(inflight):
+                return f"outgoing queue idle, {held} slots taken, {len(inflight)} reads in progress (event #{idx})"
+            # reads owed before the clock moves on (once the outgoing queue has drained)
+            if started and len(inflight) < 2 and not qbusy:
                 for i in range(n):
                     if need_init[i] and reg[i]:
                         return f"value {i}: no read although it is registered, connected since {now} us and fewer than two reads are in progress (event #{idx})"
@@ -371,6 +479,18 @@ def oracle(case, out):
                         return (f"value {i} ({cfg[i][0]} {cfg[i][1] / MIN} min): periodic read was due at {next_due[i]} us, none issued by {t} us "
                                 f"although fewer than two reads are in progress (event #{idx})")
             now = t
+        elif k == "QB":
+            qbusy = True
+        elif k == "QI":
+            qbusy = False
+        elif k == "SA":
+            held += 1
+            if held > PARALLEL_READS:
+                return f"{held} read slots acquired at once (event #{idx})"
+        elif k == "SR":
+            held -= 1
+            if held < len(inflight):
+                return f"a read slot was released while its read is still in progress ({len(inflight)} reads, {held} slots) (event #{idx})"
         elif k == "B":
             listening = True
             if connected:
@@ -430,6 +550,8 @@ def oracle(case, out):
                 return f"value {i} is read while it is not registered (event #{idx})"
             if len(inflight) >= 2:
                 return f"value {i} is read while two reads are already in progress {[(a, b) for a, b in inflight]} (event #{idx})"
+            if held <= len(inflight):
+                return f"value {i} is read without holding a read slot (event #{idx})"
             need_init_was = need_init[i]
             if need_init[i]:
                 need_init[i] = False
@@ -475,7 +597,7 @@ def outcome_class(out):
 def finding_key(case, msg):
     if "op" in case:
         return case["op"]
-    return "c35 " + str(case["default"]) + " " + ";".join(f"{o}/{int(h)}/{a}" for o, h, a in case["rvs"]) + " " + \
+    return "c35 " + str(case["default"]) + f" r{case.get('rate', 0)}d{case.get('send_delay', 0)} " + ";".join(f"{o}/{int(h)}/{a}" for o, h, a in case["rvs"]) + " " + \
         ";".join(",".join(str(x) for x in s) for s in case["steps"])
 
 
